@@ -129,7 +129,14 @@ func (c *vc9Client) GetLatestStatus(d *dag.DAG) (*model.Status, error) {
 	return model.NewStatus(d, nil, st, pid, &at, nil), nil
 }
 
+// vc9SyncDef: the barrier definition. It carries a schedule so that a daemon which only keeps
+// scheduled definitions in its table shows it too; operations issued for barrier files are ignored.
+const vc9SyncDef = "schedule: \"59 23 31 12 *\"\nsteps:\n  - name: s1\n    command: \"true\"\n"
+
 func (c *vc9Client) record(d *dag.DAG, kind int) error {
+	if strings.HasPrefix(filepath.Base(d.Location), "zz_sync_") {
+		return nil
+	}
 	c.w.mu.Lock()
 	defer c.w.mu.Unlock()
 	s := c.w.get(d)
@@ -616,7 +623,7 @@ func vc9WatcherAlive() bool {
 }
 
 // sync waits until the watcher has processed every event issued so far: it renames a fresh
-// schedule-less definition into the directory and waits for it to show up in the daemon's table
+// barrier definition (vc9SyncDef) into the directory and waits for it to show up in the daemon's table
 // (events of one inotify watch are delivered in order and handled by one goroutine). A watcher
 // goroutine that is gone is a verdict; a slow one (30 s) is a check error.
 func (r *vc9Run) sync(when string) bool {
@@ -625,7 +632,7 @@ func (r *vc9Run) sync(when string) bool {
 	for attempt := 0; ; attempt++ {
 		h.syncSeq++
 		name := fmt.Sprintf("zz_sync_%d.yaml", h.syncSeq)
-		if err := r.writeFile(name, "steps:\n  - name: s1\n    command: \"true\"\n", "rename"); err != nil {
+		if err := r.writeFile(name, vc9SyncDef, "rename"); err != nil {
 			h.res.CheckError("sync file: %v", err)
 			r.aborted = true
 			return false
@@ -1625,8 +1632,9 @@ func (h *vc9H) famExtras() {
 // ---- DAG sets of 1-3 files with the real watcher
 
 var vc9SetKinds = []string{"valid", "named-suspended", "suspended", "malformed", "invalid", "added", "added-malformed",
-	"edited", "edited-to-malformed", "malformed-fixed", "removed", "suspended-while-running", "resumed-while-running"}
-var vc9SetKindsQuick3 = []string{"valid", "suspended", "malformed", "added", "added-malformed", "edited", "removed"}
+	"edited", "edited-to-malformed", "malformed-fixed", "removed", "suspended-while-running", "resumed-while-running",
+	"unscheduled", "edited-to-unscheduled", "unscheduled-gets-schedule"}
+var vc9SetKindsQuick3 = []string{"valid", "suspended", "malformed", "added", "added-malformed", "edited", "removed", "edited-to-unscheduled"}
 
 var vc9BadYAML = []string{"schedule: \"* * * * *\"\nsteps: [\n", "schedule:\n  - \"* * * * *\"\n :\n  - x: [\n", "\tschedule: \"* * * * *\"\n"}
 var vc9InvalidDAG = []string{
@@ -1674,6 +1682,13 @@ func (h *vc9H) setFile(pos int, kind string) (vc9File, bool) {
 		f.Pre, f.Post, f.Changes = bad, after, true
 	case "removed":
 		f.Pre, f.Changes = before, true
+	case "unscheduled":
+		f.Pre = &vc9Def{Form: "none"}
+	case "edited-to-unscheduled":
+		// the schedule is edited away while the daemon runs: a valid definition that is never to be started again
+		f.Pre, f.Post, f.Changes = before, &vc9Def{Form: "none"}, true
+	case "unscheduled-gets-schedule":
+		f.Pre, f.Post, f.Changes = &vc9Def{Form: "none"}, after, true
 	case "suspended-while-running":
 		f.Pre, f.SuspPost = before, true
 	case "resumed-while-running":
@@ -1966,6 +1981,6 @@ func TestVerifC09(t *testing.T) {
 	res.Assume("UTC only (TZ=UTC); daylight-saving transitions are outside the family")
 	res.Assume("day-of-week 7: robfig/cron's standard parser documents 0-6 and refuses 7, so a definition using 7 is an unloadable file here (no calls expected, other files unaffected); counted in dow7_rejected_by_loader_members")
 	res.Assume("stop and restart calls of a suspended DAG are not judged (the property only says a suspended DAG is not started); after a running daemon sees a file edited into an unloadable one its own calls are not judged until the next daemon restart (the last good definition may stay), other files are")
-	res.Assume("the watcher family adds schedule-less zz_sync_N.yaml files to the directory to learn that the watcher has processed all earlier events; minutes that pass while no daemon process is up are not expected to be caught up")
+	res.Assume("the watcher family adds zz_sync_N.yaml barrier files (scheduled for 31 Dec 23:59, operations on them ignored) to the directory to learn that the watcher has processed all earlier events; minutes that pass while no daemon process is up are not expected to be caught up")
 	res.Write(out)
 }
